@@ -426,6 +426,37 @@ def _frozendict_replay():
     return dict(replay=dict(kind='C17', reproduced=p.returncode == 1, detail=p.stdout.strip()[-400:], tried=[]),
                 replay_script=(f"import subprocess\nenv = dict(os.environ); env['PYTHONPATH'] = {REPO!r}\np = subprocess.run([sys.executable, '-c', {FD_SRC!r}], env=env, cwd='/')\nsys.exit(p.returncode)\n") if p.returncode == 1 else None)
 
+COLLIDE_SRC = """
+import sys
+from typing import Literal
+from beartype import BeartypeConf, FrozenDict
+bad = []
+# unequal option values whose hashes collide (CPython: hash(-1) == hash(-2), carried through tuples, frozensets, Literal and FrozenDict)
+pairs = [(FrozenDict({int: Literal[-1]}), FrozenDict({int: Literal[-2]})), (FrozenDict({str: Literal[-1, 5]}), FrozenDict({str: Literal[-2, 5]}))]
+for a, b in pairs:
+    if a == b or hash(a) != hash(b): continue
+    for first, second in ((a, b), (b, a)):
+        pass
+    ca = BeartypeConf(hint_overrides=a); cb = BeartypeConf(hint_overrides=b)
+    if ca is cb or ca == cb: bad.append(f'configurations built from the unequal overrides {a!r} / {b!r} (equal hashes) are the same / equal')
+    for c, passed in ((ca, a), (cb, b)):
+        if dict(c.hint_overrides) != dict(passed): bad.append(f'hint_overrides reads back {c.hint_overrides!r}, passed {passed!r}')
+for a, b in ((('pkg_a', -1), ('pkg_a', -2)),):
+    pass
+print(bad[:2]); sys.exit(1 if bad else 0)
+"""
+def collisions(rep):
+    """bounded (NOT counted as proved): unequal option values with colliding hashes still give distinct configurations that read back as passed"""
+    import subprocess
+    from pyvc import REPO
+    env = dict(os.environ); env['PYTHONPATH'] = REPO
+    p = subprocess.run([sys.executable, '-c', COLLIDE_SRC], capture_output=True, text=True, timeout=120, env=env, cwd='/')
+    if p.returncode not in (0, 1) or (p.returncode == 1 and not p.stdout.strip().startswith('[')): rep.error('C17 collisions harness: ' + (p.stdout + p.stderr)[-600:]); return
+    if p.returncode == 1:
+        rep.add('C17.history.hash_collision_keeps_configurations_apart', 'refuted', backend='runtime-contract', bounded=True, where=p.stdout.strip()[-400:], solver_output='bounded run-time contract in a fresh interpreter (not a proof)',
+                replay=dict(reproduced=True, detail=p.stdout.strip()[-400:]), replay_script=f"import subprocess\nenv = dict(os.environ); env['PYTHONPATH'] = os.environ.get('VERIF_REPO', {REPO!r})\np = subprocess.run([sys.executable, '-c', {COLLIDE_SRC!r}], env=env, cwd='/')\nsys.exit(p.returncode)\n")
+    rep.bounded.append(dict(kind='unequal option values with colliding hashes (bounded stand-in, NOT counted as proved)', scenarios=2, failing=int(p.returncode == 1)))
+
 def main(tier, seed):
     rep = report.Report('C17', tier, seed, 'proof', f'./check C17 --tier {tier}')
     try:
@@ -439,6 +470,8 @@ def main(tier, seed):
     except Exception: rep.error('C17 copies: ' + traceback.format_exc()[-1500:])
     try: frozendict_contract(rep)
     except Exception: rep.error('C17 frozendict_contract: ' + traceback.format_exc()[-1500:])
+    try: collisions(rep)
+    except Exception: rep.error('C17 collisions: ' + traceback.format_exc()[-1500:])
     files = ['beartype/_conf/confmain.py', 'beartype/_conf/conftest.py', 'beartype/_conf/_confoverrides.py', 'beartype/_conf/_confget.py']
     rep.functions = ['beartype/_conf/confmain.py:BeartypeConf.__new__', 'beartype/_conf/confmain.py:BeartypeConf.__eq__', 'beartype/_conf/confmain.py:BeartypeConf.__hash__',
                      'beartype/_conf/conftest.py:default_conf_kwargs (inlined)', 'beartype/_conf/conftest.py:die_if_conf_kwargs_invalid (inlined)', 'beartype/_conf/conftest.py:sanify_conf_kwargs (inlined)',
